@@ -97,6 +97,7 @@ type c14Op struct {
 	versions []int          // deletev undelete destroy
 	maxV     int            // metawrite: -1 absent, else max_versions
 	casReq   int            // metawrite/config: -1 absent, 0 false, 1 true
+	dva      bool           // metawrite/config: also set delete_version_after to ten years
 	cfgRace  bool           // an engine-config write overlaps this write in the schedule (set after the run)
 
 	client    int
@@ -138,6 +139,9 @@ func (o *c14Op) String() string {
 		}
 		if o.casReq >= 0 {
 			s += fmt.Sprintf(" cas_required=%v", o.casReq == 1)
+		}
+		if o.dva {
+			s += " delete_version_after=87600h"
 		}
 	}
 	return s
@@ -183,6 +187,10 @@ func (o *c14Op) request(st logical.Storage) *logical.Request {
 		if o.casReq >= 0 {
 			req.Data["cas_required"] = o.casReq == 1
 		}
+		if o.dva {
+			// versions written from now on are scheduled for deletion far in the future; until then they behave like any other
+			req.Data["delete_version_after"] = "87600h"
+		}
 	case "metadelete":
 		req.Operation = logical.DeleteOperation
 		req.Path = "metadata/" + p
@@ -193,6 +201,9 @@ func (o *c14Op) request(st logical.Storage) *logical.Request {
 		req.Operation = logical.UpdateOperation
 		req.Path = "config"
 		req.Data["cas_required"] = o.casReq == 1
+		if o.dva {
+			req.Data["delete_version_after"] = "87600h"
+		}
 	default:
 		panic("harness: unknown op kind " + o.kind)
 	}
@@ -200,7 +211,42 @@ func (o *c14Op) request(st logical.Storage) *logical.Request {
 }
 
 // exec performs the operation and stores the canonical response.
+// remount sets the backend up again on the same storage, as a restart, seal/unseal or leadership change does; no
+// warm-up: the first request finds every cache of the new backend object cold.
+func (e *c14Env) remount() error {
+	conf := &logical.BackendConfig{
+		Logger:      log.NewNullLogger(),
+		System:      &logical.StaticSystemView{},
+		StorageView: e.storage,
+		BackendUUID: "c14",
+		Config:      map[string]string{"version": "2"},
+	}
+	lb, err := Factory(context.Background(), conf)
+	if err != nil {
+		return err
+	}
+	e.lb.Cleanup(context.Background())
+	e.lb = lb
+	e.b = lb.(*versionedKVBackend)
+	deadline := time.Now().Add(20 * time.Second)
+	for e.b.upgrading.Load() {
+		if time.Now().After(deadline) {
+			return fmt.Errorf("kv upgrade did not finish after remount")
+		}
+		time.Sleep(20 * time.Microsecond)
+	}
+	return nil
+}
+
 func (e *c14Env) exec(o *c14Op) {
+	if o.kind == "remount" {
+		if err := e.remount(); err != nil {
+			o.out, o.detail = "err:internal", err.Error()
+			return
+		}
+		o.out = "ok"
+		return
+	}
 	var resp *logical.Response
 	var err error
 	if p := verifx.Try(func() { resp, err = e.lb.HandleRequest(context.Background(), o.request(e.storage)) }); p != nil {
@@ -208,6 +254,19 @@ func (e *c14Env) exec(o *c14Op) {
 		return
 	}
 	o.out, o.detail = c14Canon(o, resp, err)
+}
+
+// c14Deleted: a version is deleted when its deletion time has passed; a deletion time in the future (scheduled by
+// delete_version_after) does not make it deleted yet.
+func c14Deleted(dt string) bool {
+	if dt == "" {
+		return false
+	}
+	at, err := time.Parse(time.RFC3339Nano, dt)
+	if err != nil {
+		return true
+	}
+	return !at.After(time.Now())
 }
 
 func c14VerFlags(deleted, destroyed bool) string {
@@ -305,7 +364,7 @@ func c14Canon(o *c14Op, resp *logical.Response, err error) (string, string) {
 			v, _ := c14AsInt(md["version"])
 			dt, _ := md["deletion_time"].(string)
 			ds, _ := md["destroyed"].(bool)
-			return fmt.Sprintf("404 v=%d %s", v, c14VerFlags(dt != "", ds)), ""
+			return fmt.Sprintf("404 v=%d %s", v, c14VerFlags(c14Deleted(dt), ds)), ""
 		}
 		if status != 0 {
 			return fmt.Sprintf("unexpected:status=%d", status), ""
@@ -320,8 +379,8 @@ func c14Canon(o *c14Op, resp *logical.Response, err error) (string, string) {
 		}
 		jb, _ := json.Marshal(data)
 		s := fmt.Sprintf("ok v=%d data=%s", v, jb)
-		if dt != "" || ds {
-			s += " flags=" + c14VerFlags(dt != "", ds)
+		if c14Deleted(dt) || ds {
+			s += " flags=" + c14VerFlags(c14Deleted(dt), ds)
 		}
 		return s, ""
 	case "metaread":
@@ -345,7 +404,7 @@ func c14Canon(o *c14Op, resp *logical.Response, err error) (string, string) {
 			m, _ := raw.(map[string]any)
 			dt, _ := m["deletion_time"].(string)
 			ds, _ := m["destroyed"].(bool)
-			vs = append(vs, vf{n, c14VerFlags(dt != "", ds)})
+			vs = append(vs, vf{n, c14VerFlags(c14Deleted(dt), ds)})
 		}
 		sort.Slice(vs, func(i, j int) bool { return vs[i].n < vs[j].n })
 		parts := make([]string, len(vs))
@@ -462,6 +521,9 @@ func c14Outcomes(st c14State, o *c14Op) []c14Outcome {
 		n := st
 		n.cfgCas = o.casReq == 1
 		return []c14Outcome{{"ok", n}}
+	}
+	if o.kind == "remount" {
+		return same("ok") // everything acknowledged is durable
 	}
 	ps := st.paths[o.path] // copy
 	commit := func(out string) c14Outcome {
